@@ -47,8 +47,9 @@ def gen_cases(tier, seed):
     for i in range(n_quick):
         R, rho = body()
         mode = ['sync', 'nsr', 'nsr_obl', 'elastic'][i % 4]
-        cases.append({'kind': 'quick', 'mode': mode, 'lmax': int(rng.integers(2, 5 if tier == 'quick' else 8)),
-                      'N': int(rng.choice([2, 4, 6] if tier == 'quick' else [2, 4, 6, 8, 10, 14, 20])),
+        # (l_max, N) pairs are drawn from a short list: every distinct pair costs a numba compilation in every worker
+        lmax_, N_ = [(2, 2), (3, 4), (4, 6), (2, 6), (3, 2), (4, 4)][i % 6] if tier == 'quick' else [(2, 2), (3, 4), (4, 6), (2, 10), (5, 8), (7, 20), (6, 14), (3, 20), (7, 4), (2, 6)][i % 10]
+        cases.append({'kind': 'quick', 'mode': mode, 'lmax': lmax_, 'N': N_,
                       'mu': 10 ** rng.uniform(8, 12), 'R': R, 'rho': rho, 'eta': 10 ** rng.uniform(12, 24),
                       'model': ['maxwell', 'andrade', 'burgers', 'sundberg', 'voigt'][int(rng.integers(5))],
                       'n': 10 ** rng.uniform(-7, -3), 'spin_ratio': float(rng.uniform(-3, 3)), 'e': float(rng.uniform(0.0, 0.4)),
